@@ -7,7 +7,8 @@ HERE = os.path.dirname(os.path.dirname(os.path.abspath(__file__)))
 CHECKS = {
     "C18": dict(
         category="exploration",
-        text="Exhaustive enumeration of all scenario forests of <=3 requests over a 7-operation/2-resource universe plus "
+        text="Exhaustive enumeration of all scenario forests of <=3 requests over a 7-operation/2-resource universe (two operations also take a "
+    "query parameter; the newest case's parameters come all / only the path ones / none from a link) plus "
         "seeded-random longer histories; the real use_after_free / ensure_resource_availability functions run on real "
         "Case/Response/Recorder objects and are compared with reference predicates written from the statement.",
         note="Histories are hand-built recorder contents, not live traffic; the path-matching reference is independent of the product's.",
@@ -89,7 +90,8 @@ CHECKS["C07"] = dict(
     category="exploration",
     text="Every single filter of every kind and every include x exclude pair over a 7-operation universe (shared and $ref'd path items, "
     "untagged / id-less / deprecated operations, links by operationId and operationRef), through schema.include/exclude and through "
-    "the CLI's FilterArguments; observed: offered operations, selected/total statistics for operations and links, state-machine "
+    "the CLI's FilterArguments, and through sibling schemas derived from an already filtered base (before and after the one under test); "
+    "observed: offered operations, selected/total statistics for operations and links, state-machine "
     "transitions; sampled full engine runs (all phases, 2 workers, both modes) and real `st run` flags judged on the API's request log; "
     "pytest parametrize and lazy fixtures in a pytest subprocess. Oracle: independent selection predicate over the raw document.",
     note="Requests with undocumented methods (coverage phase) are not attributed to operations.",
@@ -155,8 +157,10 @@ CHECKS["C02"] = dict(
     "document pools plus the classes the statement names ({} schemas, bare string headers/path parameters, additionalProperties-only "
     "objects, optional bodies, no inputs, optional plain-string cookies/headers next to a violable query); per case: case label, at least one declared part labelled negative, each negative part "
     "present and - judged on the raw captured value - invalid for the independent location schema, each positive part valid; "
-    "surely-violable operations must yield cases, surely-unviolable ones must be skipped.",
-    note="Judged on the generated (pre-coercion) value; violability is only judged for the clear cases.",
+    "surely-violable operations must yield cases, surely-unviolable ones must be skipped. Negative parts of text locations are also judged "
+    "by their text form (a value that reads as valid on the wire is not a violation), and the schema the product's invalidity filter uses "
+    "is probed directly with strings drawn from the documented pattern and lengths.",
+    note="Violability is only judged for the clear cases; probes ending in a newline are not judged (Python `$` vs ECMA 262).",
     technique="runtime monitoring: raw-value capture + label/content consistency oracle over thousands of draws",
     design_ref="DESIGN.md#c02",
 )
